@@ -126,6 +126,9 @@ Definition in_rangeb (n m : nat) (l : list (nat * nat)) : bool :=
 Definition valid_matchingb (n m : nat) (l : list (nat * nat)) : bool :=
   in_rangeb n m l && incrb l.
 
+(** The matching of a token list with itself that the file-merge laws rely on. *)
+Definition identity_matching (n : nat) : list (nat * nat) := map (fun i => (i, i)) (seq 0 n).
+
 (** Every matched pair of tokens is equal. *)
 Definition eq_matchingb {T} (eqb : T -> T -> bool) (lw rw : list T) (l : list (nat * nat)) : bool :=
   forallb (fun p => match nth_error lw (fst p), nth_error rw (snd p) with
